@@ -30,6 +30,9 @@ GRID2 = [
     dict(g=[-1.0, 0.5], H=[[1.0, 2.0], [2.0, -1.0]], aub=[], aeq=[[1.0, -1.0]]),
     dict(g=[0.5, 0.25], H=[[1.0, 1.0], [1.0, 1.0]], aub=[[0.0, 1.0]], aeq=[]),
     dict(g=[2.0, 0.0], H=[[-1.0, 0.0], [0.0, -2.0]], aub=[[-1.0, 1.0]], aeq=[]),
+    # rank-deficient working sets whose dependent rows come first (a rank-revealing factorisation is needed)
+    dict(g=[1.0, -2.0], H=[[1.0, 0.0], [0.0, 1.0]], aub=[], aeq=[[1.0, 1.0], [2.0, 2.0], [0.0, 1.0]]),
+    dict(g=[1.0, -2.0], H=[[1.0, 0.0], [0.0, 1.0]], aub=[[1.0, 1.0], [2.0, 2.0], [0.0, 1.0]], aeq=[]),
 ]
 
 
@@ -60,6 +63,7 @@ class Sub(Harness):
         S.append(dict(solver="ctangential", n=1, improve=True, rows="eq"))
         S.append(dict(solver="normal", n=1, improve=True, rows="eq"))
         S.append(dict(solver="cauchy", n=1))
+        S.append(dict(solver="ctangential", n=2, grid=6, improve=False))     # rank-deficient equalities, dependent rows first
         S.append(dict(solver="spider", n=1, npts=1))
         if tier == "thorough":
             S.append(dict(solver="spider", n=1, npts=2))
